@@ -17,7 +17,7 @@ def run(ctx):
                 "non-trivial = input reached the parser and produced a tree (all do)")
     ctx.assumptions = ["inputs bounded by 64 KiB (corpus files excepted) and nesting depth 200",
                        "tree access through the public dora-parser API only"]
-    r = inproc.run_sharded("vh-text", "parse", ctx.seed, count, "c16", timeout=ctx.pick(600, 2400))
+    r = inproc.run_sharded("vh-text", "parse", ctx.seed, count, "c16", timeout=ctx.pick(2400, 4800))
     report(ctx, r, "c16", "parser")
 
 
